@@ -127,6 +127,34 @@ func checkC07(c *Check) {
 	// Args[0] guard in prepareExec (empty argument list must be an error, not a panic)
 	checkPrepareExec(c, r)
 	c.Extra["assignments_enumerated"] = x.nEnum
+	// the parameters acted upon are those of this request (no field inherited from the previous message)
+	checkFreshDecode(c, "9/request-is-fresh")
+
+	// the channel on which a failing step is reported stays intact until exec: no scratch duplicate may land on
+	// the child's end of the sync socket (rule shared with C06: the slot is stepped past the reserved descriptors
+	// immediately before every allocation)
+	sub := NewCheck("C06", c.Tier, c.P)
+	checkC06(sub)
+	nch := 0
+	for _, o := range sub.Obs {
+		if o.Rule != "C06.2/scratch-discipline" || !strings.HasPrefix(o.Key, "skip-reserved:") {
+			continue
+		}
+		if o.Status == "ok" || strings.Contains(o.Msg, "sync channel") {
+			nch++
+			c.Obs = append(c.Obs, Obligation{Rule: "C07.10/report-channel-intact", Key: o.Key, Pos: o.Pos, Status: o.Status, Msg: o.Msg})
+		}
+	}
+	c.Expect("10/report-channel-intact", 3)
+	// a failed id-map write is an error of the launch: it is relayed to the child and the launch fails (rule of C04.O9)
+	sub4 := NewCheck("C04", c.Tier, c.P)
+	checkIDMaps(sub4)
+	for _, o := range sub4.Obs {
+		if strings.HasSuffix(o.Key, ":failure-relayed") {
+			c.Obs = append(c.Obs, Obligation{Rule: "C07.11/idmap-failure-reported", Key: o.Key, Pos: o.Pos, Status: o.Status, Msg: o.Msg})
+		}
+	}
+	c.Expect("11/idmap-failure-reported", 1)
 }
 
 // isSyncChannel: v is element 1 of the [2]int parameter, possibly moved (phi with the scratch cursor).
